@@ -793,6 +793,7 @@ theorem inv_buildRoleLinks (e : Enf) (hi : Inv e) : Inv e.buildRoleLinks.1 := by
     exact (applyRules_add count s.policy x.2.clear
       (fun r hr => by rw [plainRule_length (g0.plain r hr)]; exact Nat.le_refl _) hinj.c2).1
   unfold Enf.buildRoleLinks
+  simp only [Enf.invalidate]
   rw [rebuildLinks_eq e.md e.rm e.g hok]
   simp only
   have hr : ∀ x, (e.rm.map (fun x => (x.1, rebuiltOf e.md e.g x.1 x.2))).lookup x =
